@@ -426,3 +426,14 @@ Theorem gej_double32_correct : forall inf x0 x1 x2 x3 x4 x5 x6 x7 x8 x9 y0 y1 y2
       cong (8 * val10 ry0 ry1 ry2 ry3 ry4 ry5 ry6 ry7 ry8 ry9) (- 27 * (X * X * X * X * X * X) + 36 * (X * X * X * (Y * Y)) - 8 * (Y * Y * Y * Y))).
 Proof. exact Kernel.GejDouble32.gej_double32_correct. Qed.
 Print Assumptions gej_double32_correct.
+
+(* ---- the constant-time unified addition secp256k1_gej_add_ge (45 field operations as calls); the specification add_ge_post is in Kernel/GejAddGe.v ---- *)
+Require Import Kernel.GejAddGe Gen.gej_add_ge.
+
+Theorem gej_add_ge_correct : forall inf x0 x1 x2 x3 x4 y0 y1 y2 y3 y4 z0 z1 z2 z3 z4 bx0 bx1 bx2 bx3 bx4 by0 by1 by2 by3 by4,
+  (inf = 0 \/ inf = 1) ->
+  bnd 8 8 x0 x1 x2 x3 x4 -> bnd 8 8 y0 y1 y2 y3 y4 -> bnd 16 16 z0 z1 z2 z3 z4 -> bnd 16 16 bx0 bx1 bx2 bx3 bx4 -> bnd 16 16 by0 by1 by2 by3 by4 ->
+  gej_add_ge_k inf x0 x1 x2 x3 x4 y0 y1 y2 y3 y4 z0 z1 z2 z3 z4 bx0 bx1 bx2 bx3 bx4 by0 by1 by2 by3 by4
+    (add_ge_post inf x0 x1 x2 x3 x4 y0 y1 y2 y3 y4 z0 z1 z2 z3 z4 bx0 bx1 bx2 bx3 bx4 by0 by1 by2 by3 by4).
+Proof. exact Kernel.GejAddGe.gej_add_ge_correct. Qed.
+Print Assumptions gej_add_ge_correct.
